@@ -23,6 +23,7 @@ import Driver.LocalDuel
 import Driver.RepoListing
 import Driver.PathWalk
 import Driver.IOStack
+import Driver.SlotQ
 open Lean
 
 /-- one handler file per model (Driver/<Model>.lean); the request prefix selects it -/
@@ -55,6 +56,7 @@ def dispatch (j : Json) : Except String Json := do
   else if op.startsWith "repolist." then Driver.handleRepoListing op j
   else if op.startsWith "pathwalk." then Driver.handlePathWalk op j
   else if op.startsWith "iostack." then Driver.handleIOStack op j
+  else if op.startsWith "slotq." then Driver.handleSlotQ op j
   else throw s!"unknown op {op}"
 
 partial def loop (h : IO.FS.Stream) (out : IO.FS.Stream) : IO Unit := do
